@@ -55,7 +55,11 @@ struct Shared {
     rng: Rng,
     ncalls: HashMap<String, usize>,
     backoff: HashMap<String, (usize, usize, usize)>,
-    head_vars: HashMap<String, Vec<String>>,
+    /// per rule: (source name of the head variable, constructor it is bound to by `(= v (f ..))`)
+    head_vars: HashMap<String, Vec<(String, Option<String>)>>,
+    /// names the variables have in the canonicalised core rule (`(= v0 (F v1))` renames v0 to a
+    /// generated `@F<n>`), found by probing `Match::get_value`
+    resolved: HashMap<String, Vec<String>>,
     missing_var: Option<String>,
     variant: bool,
 }
@@ -70,24 +74,49 @@ impl Scheduler for Instr {
     fn filter_matches(&mut self, rule: &str, _ruleset: &str, m: &mut Matches) -> bool {
         let mut sh = self.sh.lock().unwrap();
         let n = m.match_size();
-        let names: Vec<String> = sh.head_vars.get(rule).cloned().unwrap_or_default();
+        let specs: Vec<(String, Option<String>)> = sh.head_vars.get(rule).cloned().unwrap_or_default();
         let mut tuples: Vec<Vec<Value>> = Vec::with_capacity(n);
-        let mut ok_names = true;
-        if n > 0 && !names.is_empty() {
-            for nm in &names {
-                let r = std::panic::catch_unwind(std::panic::AssertUnwindSafe(|| m.get_match(0).get_value(nm)));
-                if r.is_err() {
-                    ok_names = false;
-                    sh.missing_var = Some(format!("{rule}:{nm}"));
+        if n > 0 && !specs.is_empty() && !sh.resolved.contains_key(rule) {
+            let probe = |nm: &str| -> bool {
+                std::panic::catch_unwind(std::panic::AssertUnwindSafe(|| m.get_match(0).get_value(nm))).is_ok()
+            };
+            let mut names: Vec<String> = Vec::new();
+            for (plain, hint) in &specs {
+                if probe(plain) {
+                    names.push(plain.clone());
+                    continue;
+                }
+                let mut found: Vec<String> = Vec::new();
+                if let Some(h) = hint {
+                    let c0 = format!("@{h}");
+                    if probe(&c0) {
+                        found.push(c0);
+                    }
+                    for k in 0..600 {
+                        let c = format!("@{h}{k}");
+                        if probe(&c) {
+                            found.push(c);
+                        }
+                    }
+                }
+                if found.len() == 1 {
+                    names.push(found.pop().unwrap());
+                } else {
+                    sh.missing_var = Some(format!("{rule}:{plain} candidates {:?}", found));
                 }
             }
+            if names.len() == specs.len() {
+                sh.resolved.insert(rule.to_string(), names);
+            }
         }
+        let names: Option<Vec<String>> = if specs.is_empty() { Some(vec![]) } else { sh.resolved.get(rule).cloned() };
         for i in 0..n {
-            if ok_names {
-                let mt = m.get_match(i);
-                tuples.push(names.iter().map(|nm| mt.get_value(nm)).collect());
-            } else {
-                tuples.push(vec![]);
+            match &names {
+                Some(names) => {
+                    let mt = m.get_match(i);
+                    tuples.push(names.iter().map(|nm| mt.get_value(nm)).collect());
+                }
+                None => tuples.push(vec![]),
             }
         }
         let k = {
@@ -734,12 +763,23 @@ fn run_scenario(sc: &Scenario, ci: u64, w: &mut CaseWriter, viols: &mut Vec<Viol
             return false;
         }
     }
-    let mut hv: HashMap<String, Vec<String>> = HashMap::new();
+    let mut hv: HashMap<String, Vec<(String, Option<String>)>> = HashMap::new();
     let mut hvars: HashMap<String, Vec<usize>> = HashMap::new();
     let mut vsorts: HashMap<String, HashMap<usize, Sort>> = HashMap::new();
     for (i, r) in sc.rules.iter().enumerate() {
         let vs = head_vars(r);
-        hv.insert(rule_name(i), vs.iter().map(|x| format!("v{x}")).collect());
+        hv.insert(
+            rule_name(i),
+            vs.iter()
+                .map(|x| {
+                    let hint = r.body.iter().find_map(|f| match f {
+                        Fact::Eq(y, Pat::App(g, _)) if y == x => Some(p.decls[*g].name.clone()),
+                        _ => None,
+                    });
+                    (format!("v{x}"), hint)
+                })
+                .collect(),
+        );
         hvars.insert(rule_name(i), vs);
         vsorts.insert(rule_name(i), var_sorts(p, r));
     }
@@ -751,6 +791,7 @@ fn run_scenario(sc: &Scenario, ci: u64, w: &mut CaseWriter, viols: &mut Vec<Viol
         ncalls: HashMap::new(),
         backoff: HashMap::new(),
         head_vars: hv,
+        resolved: HashMap::new(),
         missing_var: None,
         variant: sc.variant,
     }));
@@ -910,11 +951,20 @@ fn run_scenario(sc: &Scenario, ci: u64, w: &mut CaseWriter, viols: &mut Vec<Viol
                 st.varfree_calls += 1;
             }
             let rl = tr.residual.len();
+            // compare held-back tuples modulo the current union-find (a repaired engine may
+            // re-canonicalise what it holds; the property speaks of matches modulo equality)
+            let csorts: HashMap<usize, Sort> = vsorts.get(&c.rule).cloned().unwrap_or_default();
+            let cz = |tu: &Vec<Value>| -> Vec<u32> {
+                tu.iter()
+                    .zip(vars.iter())
+                    .map(|(v, x)| if csorts.get(x) == Some(&Sort::S) { canon_u32(&eg, v.rep()) } else { v.rep() })
+                    .collect()
+            };
             // no loss: the expected residual is offered again
             let exp: Vec<Vec<Value>> = tr.residual.iter().map(|x| x.0.clone()).collect();
             if c.n < rl || {
-                let off: Vec<Vec<u32>> = c.tuples.iter().map(|t| t.iter().map(|v| v.rep()).collect()).collect();
-                let ex: Vec<Vec<u32>> = exp.iter().map(|t| t.iter().map(|v| v.rep()).collect()).collect();
+                let off: Vec<Vec<u32>> = c.tuples.iter().map(&cz).collect();
+                let ex: Vec<Vec<u32>> = exp.iter().map(&cz).collect();
                 ex.iter().any(|t| count(&off, t) < count(&ex, t))
             } {
                 viol(
@@ -932,7 +982,7 @@ fn run_scenario(sc: &Scenario, ci: u64, w: &mut CaseWriter, viols: &mut Vec<Viol
             if let Some((m, chosen, all)) = tr.pending_inst.take() {
                 let mut dict: Vec<Vec<u32>> = Vec::new();
                 let lab = |tu: &Vec<Value>, dict: &mut Vec<Vec<u32>>, add: bool| -> usize {
-                    let k: Vec<u32> = tu.iter().map(|v| v.rep()).collect();
+                    let k: Vec<u32> = cz(tu);
                     match dict.iter().position(|d| *d == k) {
                         Some(i) => i,
                         None => {
@@ -999,19 +1049,20 @@ fn run_scenario(sc: &Scenario, ci: u64, w: &mut CaseWriter, viols: &mut Vec<Viol
                         st.first_seek_total += 1;
                         if sorted(&fresh) == sorted(&naive) {
                             st.first_seek_exact += 1;
+                        } else if std::env::var("C18_DEBUG").is_ok() {
+                            eprintln!("first seek differs: rule {} fresh {:?} naive {:?} prior calls {}\n{}", c.rule, sorted(&fresh), sorted(&naive), rl, text);
                         }
                     }
                     tr.first_seek_done = true;
                     // model case: match_body on the dumped tables
                     if pre.tables.iter().map(|t| t.len()).sum::<usize>() <= 60 {
                         w.push(format!(
-                            "(COff {} {} {} {} {} {})",
+                            "(COff {} {} {} {} {})",
                             dump_coq(&pre),
                             coq_list(&rule.body, Program::fact_coq),
                             coq_nat_list(&vars),
                             tuples_coq(&fresh),
-                            tuples_coq(hist),
-                            coq_bool(first)
+                            tuples_coq(hist)
                         ));
                         st.off_cases += 1;
                     }
